@@ -6,6 +6,42 @@ use json_syntax::print::{Indent, Limit, Options};
 use json_syntax::{Parse, Print, Value};
 use serde_json::{json, Value as J};
 
+/// a sink that fails after `left` bytes
+struct Failing { left: usize }
+impl std::fmt::Write for Failing {
+	fn write_str(&mut self, s: &str) -> std::fmt::Result {
+		if s.len() > self.left {
+			self.left = 0;
+			Err(std::fmt::Error)
+		} else {
+			self.left -= s.len();
+			Ok(())
+		}
+	}
+}
+
+/// A print that FAILS half-way (the sink refuses more bytes) on the current thread: nothing it leaves behind may influence
+/// a later print.
+pub fn disturb_print() {
+	use std::fmt::Write;
+	thread_local! { static TURN: std::cell::Cell<usize> = std::cell::Cell::new(0); }
+	let turn = TURN.with(|t| { t.set(t.get() + 1); t.get() });
+	let _ = guarded(|| {
+		let v = Value::Array((0..6).map(|i| Value::Array(vec![Value::Null, Value::String("some text that makes the line long".into()), Value::Object(vec![json_syntax::object::Entry::new("k".into(), Value::Number((i as u8).into()))].into_iter().collect())])).collect());
+		let mut sink = Failing { left: 20 + (turn % 7) * 15 };
+		match turn % 3 {
+			0 => { let _ = write!(sink, "{}", v.pretty_print()); }
+			1 => { let _ = write!(sink, "{}", v.compact_print()); }
+			_ => {
+				let mut o = Options::pretty();
+				o.array_limit = Some(Limit::Always);
+				o.indent = Indent::Tabs(1);
+				let _ = write!(sink, "{}", v.print_with(o));
+			}
+		}
+	});
+}
+
 fn limit(j: &J) -> Option<Limit> {
 	let u = |i: usize| j[i].as_u64().unwrap() as usize;
 	match j[0].as_str().unwrap() {
@@ -68,6 +104,9 @@ pub fn replay_print(rep: &mut Report, rec: &J) {
 	let o = options(&rec["o"]);
 	let exp = cps_to_string(&rec["text"]).unwrap_or_else(|| tool_error("print vector: text"));
 	let is_compact = o == Options::compact();
+	if rep.counters["print_vectors"] % 5 == 2 {
+		disturb_print();
+	}
 	let got = match guarded(|| v.print_with(o.clone()).to_string()) {
 		Ok(s) => s,
 		Err(p) => {
@@ -179,7 +218,8 @@ fn deep_case(rng: &mut Rng, g: &ValueGen) -> (Value, Options) {
 		(Indent::Spaces(1), 32usize), (Indent::Spaces(1), 33), (Indent::Spaces(1), 65), (Indent::Spaces(2), 16), (Indent::Spaces(2), 17), (Indent::Spaces(2), 33),
 		(Indent::Spaces(3), 11), (Indent::Spaces(4), 8), (Indent::Spaces(4), 9), (Indent::Spaces(4), 16), (Indent::Spaces(8), 4), (Indent::Spaces(8), 8),
 		(Indent::Spaces(16), 2), (Indent::Spaces(16), 4), (Indent::Spaces(32), 2), (Indent::Tabs(1), 32), (Indent::Tabs(1), 33), (Indent::Tabs(2), 16), (Indent::Tabs(2), 17),
-	][rng.below(19)];
+		(Indent::Tabs(1), 65), (Indent::Tabs(2), 33), (Indent::Tabs(40), 2), (Indent::Tabs(64), 1), (Indent::Spaces(2), 65), (Indent::Spaces(64), 2), (Indent::Spaces(128), 1),
+	][rng.below(26)];
 	let mut v = g.value(rng, 1);
 	for d in 0..depth {
 		v = if rng.chance(1, 3) {
@@ -395,6 +435,9 @@ pub fn record(args: &Args) {
 				(v, o)
 			}
 		};
+		if i % 4 == 1 {
+			disturb_print();
+		}
 		let text = guarded(|| v.print_with(o.clone()).to_string());
 		if i % 3 == 0 {
 			crate::parsev::disturb();
